@@ -59,6 +59,8 @@ def build_catalog(rng):
     def M(key, fn="_"):       # a call with message key `key` ('@' = position of the entry)
         return "%s%s('m@%s\u00a4')" % (F, fn, key)
 
+    # ---- the magic encoding comment: a ## line that is line 1 when the encoding is declared that way
+    E.append(_item("magic", "uc", "## -*- coding: CODEC -*-\n", ls=True, group="magic"))
     # ---- comments, fillers, decoys
     pre("tc", "tc", "## %s c@\n" % TAG, ls=True)
     pre("tc-ind", "tc", "%s##   %s c@ \n" % (I or " ", TAG), ls=True)
@@ -120,18 +122,24 @@ def catalog_module(E):
             "XCatDef == <<\n  " + ",\n  ".join(items) + " >>\n====\n")
 
 
-def cfg(pre, last, maxpre, nlkinds):
-    return ("CONSTANTS\n  Pre = {%s}\n  Last = {%s}\n  MaxPre = %d\n  NLKinds = {%s}\nSPECIFICATION Spec\nCHECK_DEADLOCK FALSE\n"
+CODECS = {"ascii": "", "utf-8": "\u0416\u00e9", "cp1251": "\u0416", "koi8-r": "\u0416", "latin-1": "\u00e9", "iso-8859-15": "\u20ac\u00e9"}
+DECLS = ["magic", "option", "both", "neither"]
+
+
+def cfg(pre, last, maxpre, nlkinds, magic=1, decls=("option",), encs=("any",), mcs=("any",)):
+    q = lambda xs: ", ".join('"%s"' % x for x in xs)     # noqa
+    return ("CONSTANTS\n  Pre = {%s}\n  Last = {%s}\n  MaxPre = %d\n  NLKinds = {%s}\n  Decls = {%s}\n  Encs = {%s}\n  MsgClasses = {%s}\n  Magic = %d\n"
+            "SPECIFICATION Spec\nCHECK_DEADLOCK FALSE\n"
             "INVARIANT EachCallOnceAtItsLine\nINVARIANT NothingFromDecoys\nINVARIANT CommentsAttachExactly\n"
-            % (", ".join(map(str, pre)), ", ".join(map(str, last)), maxpre, ", ".join('"%s"' % x for x in nlkinds)))
+            % (", ".join(map(str, pre)), ", ".join(map(str, last)), maxpre, q(nlkinds), q(decls), q(encs), q(mcs), magic))
 
 
 # --------------------------------------------------------------------------- concretise / expected
-def compose(E, seq, nl, suffix):
+def compose(E, seq, nl, suffix, codec="utf-8"):
     parts = []
     for i, e in enumerate(seq):
         parts.append(lc.strip_markers(E[e - 1]["text"]).replace("@", str(i + 1)).replace("\u00a4", suffix))
-    return "".join(parts).replace("\n", nl)
+    return "".join(parts).replace("CODEC", codec).replace("\n", nl)
 
 
 def comment_text(E, seq, pos, suffix):
@@ -160,11 +168,12 @@ class _Opts:
     comment_tag = True
 
 
-def run_babel(text, enc):
+def run_babel(text, enc, declare_option=True):
     from mako.ext.babelplugin import extract
     try:
         got = []
-        for (line, fn, msgs, cm) in extract(io.BytesIO(text.encode(enc)), ["_", "gettext", "ngettext"], [TAG], {"encoding": enc}):
+        opts = {"encoding": enc} if declare_option else {}
+        for (line, fn, msgs, cm) in extract(io.BytesIO(text.encode(enc)), ["_", "gettext", "ngettext"], [TAG], opts):
             if isinstance(msgs, str):
                 msgs = [msgs]
             got.append({"line": line, "fn": fn, "msgs": [m for m in msgs if isinstance(m, str)], "cm": list(cm)})
@@ -293,6 +302,7 @@ def check(run):
     pre = [i + 1 for i, e in enumerate(E) if e["group"] in ("pre", "both")]
     last = [i + 1 for i, e in enumerate(E) if e["group"] in ("last", "both")]
     byid = {e["id"]: i + 1 for i, e in enumerate(E)}
+    magic = byid["magic"]
     window = [byid[x] for x in ("tc", "uc", "blank", "text", "doc", "nomsg", "ifblock-tc")]
     wlast = [byid[x] for x in ("expr", "ctl.if", "block2", "defsig", "pageargs")]
     cases = []
@@ -303,14 +313,14 @@ def check(run):
         n0 = len(seen)
         for c in res.json_lines():
             if isinstance(c, dict) and "out" in c:
-                key = (tuple(c["seq"]), c["nl"])
+                key = (tuple(c["seq"]), c["nl"], tuple(sorted(c.get("src", {}).items())))
                 if key not in seen:
                     seen.add(key)
                     cases.append(c)
         return len(seen) - n0
 
     # ------------------------------------------------------------------ 1. TLC
-    res = run.tlc("MC_Extract", cfg(pre, last, 2, ["lf", "crlf"]), name="mc-all", workers=workers,
+    res = run.tlc("MC_Extract", cfg(pre, last, 2, ["lf", "crlf"], magic), name="mc-all", workers=workers,
                   coverage=True, extra_files=files, timeout=1500)
     if res.violated:
         run.spec_violation(res)
@@ -321,18 +331,29 @@ def check(run):
     n1 = take(res)
     if thorough:    # three items before every kind of construct, over the kinds that move lines / the window
         deep = [byid[x] for x in ("tc", "uc", "blank", "text", "docml", "nomsg", "ifblock-tc", "expr", "block2")]
-        res = run.tlc("MC_Extract", cfg(deep, last, 3, ["lf"]), name="mc-all-deep", workers=workers, extra_files=files, timeout=2400)
+        res = run.tlc("MC_Extract", cfg(deep, last, 3, ["lf"], magic), name="mc-all-deep", workers=workers, extra_files=files, timeout=2400)
         if res.violated:
             run.spec_violation(res)
             return {"rule": "model violated", "exhaustive": False}
         n1 += take(res)
-    res = run.tlc("MC_Extract", cfg(window, wlast, 5 if thorough else 4, ["lf", "crlf"] if thorough else ["lf"]), name="mc-window", workers=workers,
+    res = run.tlc("MC_Extract", cfg(window, wlast, 5 if thorough else 4, ["lf", "crlf"] if thorough else ["lf"], magic), name="mc-window", workers=workers,
                   extra_files=files, timeout=1500)
     if res.violated:
         run.spec_violation(res)
         return {"rule": "model violated", "exhaustive": False}
     n2 = take(res)
-    run.extra["cases"] = {"all-kinds": n1, "comment-window": n2}
+    # how the source encoding is declared x codec x message class (every kind of construct, <=1 item before it)
+    dpre = [byid[x] for x in ("tc", "blank", "text")]
+    res = run.tlc("MC_Extract", cfg(dpre, last, 2 if thorough else 1, ["lf", "crlf"] if thorough else ["lf"], magic, DECLS, sorted(CODECS), ["ascii", "nonascii"]),
+                  name="mc-declared", workers=workers, extra_files=files, timeout=1500)
+    if res.violated:
+        run.spec_violation(res)
+        return {"rule": "model violated", "exhaustive": False}
+    n3 = take(res)
+    got_src = {(c["src"]["decl"], c["src"]["enc"], c["src"]["mc"]) for c in cases if c["src"]["enc"] != "any"}
+    if len(got_src) != 36:
+        raise MachineryError("declaration instance covers %d of 36 (declaration, codec, message class) triples" % len(got_src))
+    run.extra["cases"] = {"all-kinds": n1, "comment-window": n2, "declared": n3}
     run.extra["catalog"] = {"pre": len(pre), "last": len(last), "cosmetics": cos}
     if n1 < 500 or n2 < 500:
         raise MachineryError("TLC exported too few cases (%d, %d)" % (n1, n2))
@@ -345,17 +366,24 @@ def check(run):
     seen = {}
     mism = {}
     n = 0
-    cases.sort(key=lambda c: (c["seq"], c["nl"]))
+    cases.sort(key=lambda c: (c["seq"], c["nl"], sorted(c["src"].items())))
     for ci, case in enumerate(cases):
         nl = "\n" if case["nl"] == "lf" else "\r\n"
         h = int(hashlib.sha1(("%d:%d" % (run.seed, ci)).encode()).hexdigest()[:8], 16)
-        encs = [ENCODINGS[h % len(ENCODINGS)]]
-        if h % (11 if thorough else 41) == 0:
-            encs = ENCODINGS
+        src = case["src"]
+        if src["enc"] == "any":        # the harness draws the codec; declared by the option
+            encs = [ENCODINGS[h % len(ENCODINGS)]]
+            if h % (11 if thorough else 41) == 0:
+                encs = ENCODINGS
+            by_option = True
+        else:                          # TLC fixed declaration, codec and message class
+            rep = CODECS[src["enc"]]
+            encs = [(src["enc"], "" if src["mc"] == "ascii" else rep[h % len(rep)])]
+            by_option = src["decl"] in ("option", "both")
         for enc, suffix in encs:
-            text = compose(E, case["seq"], nl, suffix)
+            text = compose(E, case["seq"], nl, suffix, enc)
             exp = expected(E, case, suffix)
-            runs = [("babel:" + enc if suffix else "babel", run_babel(text, enc), False)]
+            runs = [("babel:" + enc if suffix else "babel", run_babel(text, enc, by_option), False)]
             if (enc, suffix) == encs[0]:
                 runs.append(("lingua", run_lingua(text), True))
             for who, got, is_l in runs:
@@ -363,6 +391,8 @@ def check(run):
                 d = compare(E, case, exp, got, lingua=is_l)
                 if d:
                     sig = "%s:%s:%s" % (who.split(":")[0], d[0], d[1])
+                    if d[0] == "extractor" and src["enc"] != "any":
+                        sig += ":encoding-declared-by-" + src["decl"]
                     mism.setdefault(sig, []).append({"template": text, "encoding": enc, "extractor": who, "expected": exp, "observed": got,
                                                      "items": [E[i - 1]["id"] for i in case["seq"]], "nl": case["nl"]})
         if ci < 3:
@@ -396,14 +426,19 @@ def check(run):
         for x in b2:
             x["cm"] = []
         b3 = copy.deepcopy(exp)[1:]
-        g4 = run_babel(nl + text, "ascii")      # an unaccounted line
+        if not mism:
+            g4 = run_babel(nl + text, "ascii")      # an unaccounted line
+        else:       # on a tree with violations: the same comparer on a synthetic shifted observation
+            g4 = [dict(x, line=x["line"] + 1) for x in got]
         ok = all(compare(E, case, b, got) is not None for b in (b1, b2, b3)) and compare(E, case, exp, g4) is not None
         run.negative_control(ok, "comparer accepted a corrupted expectation / shifted template")
         done += 1
     if not done and not mism:      # on a tree that fails everywhere the violations are the verdict
         raise MachineryError("no negative control could be run")
     run.assumptions += [
-        "keywords _, gettext, ngettext; comment tag 'TRANSLATORS:'; Babel options {'encoding': enc}; lingua default keywords",
+        "keywords _, gettext, ngettext; comment tag 'TRANSLATORS:'; lingua default keywords",
+        "source encoding declared by magic comment only / Babel encoding option only / both / neither (UTF-8, ASCII) x 6 codecs x "
+        "{ASCII, non-ASCII in repertoire} messages: all 36 correct declarations every run; the other instances declare by option",
         "not generated (property silent): blank lines between two ## lines; a message construct not at the start of its line right after a ## line; "
         "Python '# TRANSLATORS:' comments inside <% %> blocks; a Python string beginning on a later line of its tag",
         "messages are matched by their (unique) text; order of the reported tuples is not compared",
